@@ -8,6 +8,11 @@ HOOK_COMMITS = ["204cfe3", "2edc694", "e1d8638"]
 
 # id -> (category, technique, level text, level note, design ref)
 CHECKS = {
+ "C14": ("fault_enumeration",
+         "fault injection at the Directory seam, enumerated over the operation indexes of a recorded fault-free run, each faulty re-run in a child process monitored for death / lack of progress, with reader-vs-model oracles after every batch, surfacing checks (Batch error, AsyncError), an acknowledgement probe after the fault clears and crash-image recovery of the faulty trace",
+         "For seeded histories the fault-free operation sequence is recorded; the same history is then re-run with an injected failure at chosen operation indexes for Persist (before any byte / after a partial write / after the full write), Load, Remove and List, transient and sticky, in safe and unsafe mode (pairs of placements in the thorough tier). Each run must not die or stall, readers must follow the applied batches, background failures must reach AsyncError (and the waiting Batch), the batch after the fault must be acknowledged, and all boundary crash images of the faulty trace must recover to a state not older than the last acknowledgement. Enumerated over the sampled placements of each history.",
+         "Trusts: directory-level injection as a model of I/O failure (os-level variants covered by C13); storage model of C02; 45 s progress watchdog (wall clock) reported with goroutine dump.",
+         "DESIGN.md §4 C14"),
  "C11": ("exploration",
          "on-line invariant monitor hooked into a recording Directory wrapper (directory read back, decoded and CRC-checked after every snapshot persist and every remove; closer pairing; /proc/self/fd; reopen; second-writer refusal) under merge-happy runs with jitter, plus a lock hand-off stress",
          "During real merge-happy runs with retention 1..3 the monitor evaluates, at every boundary after a snapshot persist or a remove and with no operation half-way, that enough loadable snapshots with all their segment files exist and that a removed segment does not belong to the live root; at the end every Load closer must have been closed exactly once, no descriptor under the directory may be open, the directory must reopen at once with the right content and a second writer must have been refused harmlessly. Held on the runs observed; the lock hand-off race is a listed finding.",
